@@ -296,7 +296,7 @@ func init() {
 		ID:    "C11",
 		Level: "exploration",
 		Rule: "cases are calls of every built-in (39) on every receiver of a table (empty/ASCII/2-3-4-byte/combining strings, arrays incl. nested arrays and objects, boundary integers, floats around .5, booleans) with every argument tuple of length 0..2 (and a sample of length 3) from a pool of counts around the receiver sizes, separators and wrong kinds; the exhaustive (len,start,end) cube for slice and (len,n) squares for truncate/at/repeat; call sequences that would expose shared storage; receiver and arguments come from the data map and every render prints receiver before, result, receiver after and the arguments. " +
-			"Oracles: one independent reference function per built-in (error or clamped result where the contract is silent), before==after (purity), utf8.ValidString, and a custom function registered under every built-in name that must never run. also one call site over receivers of changing kinds, an integer ladder around powers of ten and two; round 8: counts to 4 Mi, 8 rounds of concurrent built-in calls; round 9: products wrapping around 2^64; rounds 10-11: nil-valued properties, width-changing case mappings, character references; round 13: concurrent shuffles; distinct_nontrivial = distinct calls (receiver, name, arguments)",
+			"Oracles: one independent reference function per built-in (error or clamped result where the contract is silent), before==after (purity), utf8.ValidString, and a custom function registered under every built-in name that must never run. also one call site over receivers of changing kinds, an integer ladder around powers of ten and two; round 8: counts to 4 Mi, 8 rounds of concurrent built-in calls; round 9: products wrapping around 2^64; rounds 10-11: nil-valued properties, width-changing case mappings, character references; round 13: concurrent shuffles; round 15: references without semicolons, concurrent character built-ins; distinct_nontrivial = distinct calls (receiver, name, arguments)",
 		Assumptions: []string{
 			"where the statement names no behaviour (split, raw, trim*, upper, lower, join, repeat, rand) the reference is the obvious reading of the name, consistent with the pinned suite",
 			"extra arguments beyond those a function knows may be ignored or rejected; counts whose result would exceed a few MiB are not generated",
